@@ -621,6 +621,41 @@ def _hd_alias_search(cx, rep, p):
     rep.decide(okl, 'alias marker', al, 'the AS rewrite and the AST search use the same pseudo-function name', 'the alias pseudo-function name differs between the rewrite and the AST search')
 
 
+def _star_model(cx, port, p, mod, f1, f2):
+    """replace_star_vars and its header-side twin evaluated on 14 select lists (stars first, last, in the middle, adjacent, with blanks,
+    qualified, and items that merely contain `*`): '' / problem / None (outside the abstract interpreter)"""
+    from .. import absexec as AX
+    tmpl = '] + {} + [' if port == 'py' else ']).concat({}).concat(['
+    target = {'*': 'star_fields', 'a.*': 'record_a', 'b.*': 'record_b'}
+    marker = {'*': '__RBQL_INTERNAL_STAR', 'a.*': 'a.__RBQL_INTERNAL_STAR', 'b.*': 'b.__RBQL_INTERNAL_STAR'}
+    cases = ['*', 'a1', '*,a1', 'a1,*', 'a1, * ,a2', '*,*', 'a.*,b.*', 'a1,a2', 'a1*2,*', ' *', 'b.* , a1', 'a1, a.*, b2, *', 'len(a1), *', 'a1 * 2, b.*']
+    try:
+        for text in cases:
+            items = text.split(',')
+            want1, prev_star = '', True
+            for it_ in items:
+                if it_.strip() in target:
+                    want1 += tmpl.format(target[it_.strip()])
+                    prev_star = True
+                else:
+                    want1 += ('' if prev_star else ',') + it_
+                    prev_star = False
+            want2 = ','.join(marker.get(it_.strip(), it_) for it_ in items)
+            for fd, want, side in ((f1, want1, 'record'), (f2, want2, 'header')):
+                runs, cut = AX.Explorer(p, mod, max_choices=1).explore(fd, [text])
+                if cut or len(runs) != 1 or runs[0].outcome[0] != 'return' or not isinstance(runs[0].outcome[1], str):
+                    raise Undecided('{} does not return a text for {!r}'.format(fd.name, text), fd)
+                got = runs[0].outcome[1]
+                if got != want:
+                    return 'for the select list `{}` the {}-side rewrite gives `{}` instead of `{}`: record fields and header names no longer line up'.format(text, side, got, want)
+    except (Undecided, AX.Cut, AX._NeedChoice, AX.Raised, KeyError, IndexError, TypeError, AttributeError, ValueError) as e_:
+        import os
+        if os.environ.get('RBQL_VERIF_DEBUG'):
+            print('star model gave up:', type(e_).__name__, str(e_)[:200])
+        return None
+    return ''
+
+
 def rule_hd_startwin(cx, rep, port):
     """the two star-rewriting regexes agree on the star token and have the same replacement keys; the record-side skips the
     look-ahead comma, the header-side does not"""
@@ -628,6 +663,12 @@ def rule_hd_startwin(cx, rep, port):
     mod = cx.engine_mod(port)
     f1 = p.func(mod, 'replace_star_vars')
     f2 = p.func(mod, 'replace_star_vars_for_ast' if port == 'py' else 'replace_star_vars_for_header_parsing')
+    sm = _star_model(cx, port, p, mod, f1, f2)
+    if sm is not None:
+        for k_ in ('star keys', 'star targets', 'star expansion form', 'star token', 'star right context', 'comma handling'):
+            rep.decide(sm == '', k_, f1, 'both star rewrites evaluated on 14 select lists: the record side splices star_fields / record_a / record_b between list literals, the header side puts the star marker in the same item position', sm)
+        return
+    rep._fallback = 'the star rewrites are outside the abstract interpreter'
     def info(fd):
         from .pa import regexes_of
         pats = [pt for pt, ic, nd in regexes_of(cx, port, fd, depth=0)]
